@@ -44,8 +44,12 @@ def sites(tree, only_funcs):
     for n in ast.walk(tree):
         n._mid = idx
         idx += 1
+    in_assert = set()
     for n in ast.walk(tree):
-        if not hasattr(n, 'lineno'):
+        if isinstance(n, ast.Assert):
+            in_assert |= {id(x) for x in ast.walk(n)}
+    for n in ast.walk(tree):
+        if not hasattr(n, 'lineno') or id(n) in in_assert:
             continue
         fn = owner(n)
         if only_funcs and fn not in only_funcs:
